@@ -1,10 +1,21 @@
 #!/bin/sh
-# Rebuild the extracted model and the driver.  Usage: build.sh (run from anywhere)
+# Rebuild the extracted model and the driver.
 set -e
 cd "$(dirname "$0")"
-mkdir -p _build
-cd _build
+rm -rf _build.new
+mkdir -p _build.new
+cd _build.new
 coqc -R ../../coq Xeh ../../coq/Extract/Extract.v >/dev/null
+# the extracted Coq.Strings.String and Coq.Lists.List would shadow OCaml's own modules
+for m in String List; do
+  if [ -f $m.ml ]; then
+    mv $m.ml Coq$m.ml; mv $m.mli Coq$m.mli
+    sed -i "s/\\b$m\\./Coq$m./g; s/^open $m\$/open Coq$m/" *.ml *.mli
+  fi
+done
 cp ../conv.ml ../*_drv.ml ../driver.ml .
-ocamlfind ocamlopt -O3 -w -a -o model_run model.mli model.ml conv.ml $(ls *_drv.ml | sort) driver.ml 2>/dev/null \
- || ocamlfind ocamlopt -w -a -o model_run model.mli model.ml conv.ml $(ls *_drv.ml | sort) driver.ml
+ORDER=$(ocamlfind ocamldep -sort *.mli *.ml)
+ocamlfind ocamlopt -package zarith -linkpkg -O3 -w -a -o model_run $ORDER 2>/dev/null || ocamlfind ocamlopt -package zarith -linkpkg -w -a -o model_run $ORDER
+cd ..
+rm -rf _build
+mv _build.new _build
